@@ -8,7 +8,7 @@ echo "# Seeded changes vs checks ($tier tier, $(git -C /repo rev-parse --short H
 echo "" >> $out
 echo "| change | summary | caught by (rc=1 with VIOLATION) | not caught by |" >> $out
 echo "|--------|---------|--------------------------------|---------------|" >> $out
-for d in seeded/C*/${MUT_GLOB:-m*}; do
+for d in seeded/C*/${MUT_GLOB:-*}; do
   id=$(basename $(dirname $d)); m=$(basename $d)
   checks="$id ${also[$id]}"
   res=$(tools/try_mutant.sh $d/patch.diff $tier $checks 2>&1)
